@@ -62,7 +62,9 @@ fn all_families() -> Vec<Box<dyn Family>> {
 fn all_families_base() -> Vec<Box<dyn Family>> {
   vec![Box::new(c08::C08), Box::new(c18::C18), Box::new(c09::C09), Box::new(c12::C12), Box::new(thr_ops::C19Ops), Box::new(thr_ops::C19Subjects), Box::new(thr_ops::C11), Box::new(timed::C16), Box::new(timed::C15), Box::new(c01::C01), Box::new(c05::C05Seq), Box::new(c05::C05Thr), Box::new(c06::C06), Box::new(c17::C17), Box::new(c14::C14), Box::new(c14::C14Shared), Box::new(c10::C10), Box::new(c13::C13), Box::new(c13::C13Thr), Box::new(c03::C03), Box::new(c03::C03Rsg), Box::new(c04::C04Travel), Box::new(c04::C04Handlers),
     Box::new(Only { inner: Box::new(thr_ops::C11), name: "c03-amb-threads", pred: |w| w.s("op") == "amb" }),
-    Box::new(Only { inner: Box::new(c12::C12), name: "c10-replay-subject-threads", pred: |w| w.s("subject") != "behavior" })]
+    Box::new(Only { inner: Box::new(c12::C12), name: "c10-replay-subject-threads", pred: |w| w.s("subject") != "behavior" }),
+    Box::new(Only { inner: Box::new(thr_ops::C19Subjects), name: "c01-illformed-source-two-threads", pred: |_| true }),
+    Box::new(Only { inner: Box::new(thr_ops::C19Ops), name: "c01-racing-terminals-behind-operators", pred: |_| true })]
 }
 
 fn spec_for(prop: &str) -> Option<CheckSpec> {
@@ -77,7 +79,13 @@ fn spec_for(prop: &str) -> Option<CheckSpec> {
         "runs that end blocked (self-deadlock, livelock, panic) are not judged here but by C07 (DESIGN.md 4.6)".into(),
         "single driver task: the sequential interleavings of several hot sources' scripts are the generated step order".into(),
       ],
-      families: vec![FamilySpec { fam: Box::new(c01::C01), quick_runs: 400_000, thorough_runs: 6_000_000 }],
+      families: vec![
+        FamilySpec { fam: Box::new(c01::C01), quick_runs: 400_000, thorough_runs: 6_000_000 },
+        // a source that misbehaves from two threads at once (both terminals, a terminal and an item):
+        // the C19 families, judged by the same contract
+        FamilySpec { fam: Box::new(Only { inner: Box::new(thr_ops::C19Subjects), name: "c01-illformed-source-two-threads", pred: |_| true }), quick_runs: 40_000, thorough_runs: 600_000 },
+        FamilySpec { fam: Box::new(Only { inner: Box::new(thr_ops::C19Ops), name: "c01-racing-terminals-behind-operators", pred: |_| true }), quick_runs: 30_000, thorough_runs: 600_000 },
+      ],
       quick_cap_s: 60,
       thorough_cap_s: 900,
     }),
@@ -87,7 +95,7 @@ fn spec_for(prop: &str) -> Option<CheckSpec> {
       rule: seq_rule.to_string(),
       assumptions: vec![
         "stage-wise refinement: the reference model of the judged combinator is evaluated on the histories recorded by probe stages on its input edges and must allow the history recorded on its output edge; the other operators are context and need no reference".into(),
-        "may-sets where the statement is silent: zip/combine_latest may complete from the first input completion on and must once all completed; terminals of a take_until/skip_until/sample trigger need not have an effect, completion is allowed; switch_on_next is exercised but not judged".into(),
+        "may-sets where the statement is silent: zip/combine_latest may complete from the first input completion on and must once all completed; terminals of a take_until/skip_until/sample trigger have no effect (the statement gates by the trigger's items); switch_on_next is exercised but not judged".into(),
         "the context above the judged operator cannot end early (map/tap/materialize only)".into(),
       ],
       families: vec![
